@@ -84,7 +84,7 @@ def main(argv=None):
     ap = argparse.ArgumentParser()
     ap.add_argument('property')
     ap.add_argument('--tier', default=os.environ.get('VERIF_TIER') or 'quick', choices=['quick', 'thorough'])
-    ap.add_argument('--root', default=os.environ.get('VERIF_ROOT') or '/repo')
+    ap.add_argument('--root', default=None)
     ap.add_argument('--evidence-dir', default=None)
     ap.add_argument('--replay', default=None)
     ap.add_argument('--quiet', action='store_true')
@@ -97,6 +97,10 @@ def main(argv=None):
                 r = json.load(f)
             pid = r['property']
             key = (r['rule'], r['construct'], r.get('statement', ''))
+            if a.root is None:
+                a.root = r.get('root')
+        if a.root is None:
+            a.root = os.environ.get('VERIF_ROOT') or '/repo'
         if pid not in PROPS:
             print(f'ANALYSIS-ERROR property={pid}: no static check exists for this property (see MANIFEST.not_applicable)')
             return 2
